@@ -370,7 +370,7 @@ theorem getHash1_at (st : HashStore) (pre suf : List Hash) (x : Hash) (h : st.ha
 /-- Reading the store at the positions `getSubTreePos` (shifted to the block that holds `postorder R`)
 returns the frontier of `R`. -/
 theorem readAll_frontier (st : HashStore) : ∀ (R pre suf : List Hash), st.hashes = pre ++ postorder H R ++ suf →
-    readAll st 1 (prefixSums pre.length (getSubTreeSize R.length)) = .ok (frontier H R) := by
+    readAll (getHash1 st) 1 (prefixSums pre.length (getSubTreeSize R.length)) = .ok (frontier H R) := by
   intro R
   generalize hn : R.length = n
   induction n using Nat.strongRecOn generalizing R with
@@ -401,9 +401,9 @@ theorem readAll_frontier (st : HashStore) : ∀ (R pre suf : List Hash), st.hash
 /-- `rangeRoot` over the block of the store that holds `postorder R` is the RFC 6962 root of `R`. -/
 theorem rangeRoot_ok (st : HashStore) (R pre suf : List Hash) (hR : R ≠ [])
     (hst : st.hashes = pre ++ postorder H R ++ suf) :
-    rangeRoot H st (pre.length + 1) R.length = .ok (mth H R) := by
+    rangeRoot H (getHash1 st) (pre.length + 1) R.length = .ok (mth H R) := by
   unfold rangeRoot getSubTreePos
-  have hshift : ∀ (l : List Nat), readAll st (pre.length + 1) l = readAll st 1 (l.map (· + pre.length)) := by
+  have hshift : ∀ (l : List Nat), readAll (getHash1 st) (pre.length + 1) l = readAll (getHash1 st) 1 (l.map (· + pre.length)) := by
     intro l
     induction l with
     | nil => simp [readAll]
@@ -517,7 +517,7 @@ theorem path_len32 (hlen : HashLen H) (l : List Hash) (h32 : ∀ y ∈ l, y.leng
 `S[m]` they give the root of `S`. -/
 theorem inclLoop_ok (st : HashStore) (fuel : Nat) : ∀ (S : List Hash) (m : Nat) (pre suf : List Hash),
     st.hashes = pre ++ postorder H S ++ suf → m < S.length → S.length ≤ fuel →
-    ∃ r, inclLoop H st fuel m S.length pre.length = .ok r ∧ (r.map (·.2)).reverse = path H m S ∧
+    ∃ r, inclLoop H (getHash1 st) fuel m S.length pre.length = .ok r ∧ (r.map (·.2)).reverse = path H m S ∧
       (∀ x, S[m]? = some x → provePath H x r.reverse = mth H S) := by
   induction fuel with
   | zero => intro S m pre suf _ hm hf; omega
@@ -588,10 +588,10 @@ theorem inclusionProof_eq_path (L : List Hash) (s : State) (st : HashStore) (m n
   have hlen : (L.take n).length = n := by simp; omega
   obtain ⟨r, hr, hp, _⟩ := inclLoop_ok H st n (L.take n) m [] rest (by rw [h3 st hst, hrest]; simp) (by omega) (by omega)
   rw [hlen] at hr
-  unfold inclusionProof
+  unfold inclusionProof inclusionProofR
   have : ¬ m ≥ n := by omega
   have h' : ¬ s.tree.size < n := by omega
-  simp only [this, h', ↓reduceIte, hst]
+  simp only [this, h', ↓reduceIte, hst, Option.map_some]
   simp only [List.length_nil] at hr
   rw [hr]; simp only [hp]
 
@@ -618,10 +618,10 @@ theorem leafPath_gen_verifies (hlen : HashLen H) (L : List Hash) (s : State) (st
     rw [hp] at this
     exact path_len32 H hlen (L.take n) (fun y hy => h32 y (List.mem_of_mem_take hy)) m _ this
   refine ⟨varBytes data ++ encodePairs r.reverse, ?_, ?_⟩
-  · unfold merkleInclusionLeafPath
+  · unfold merkleInclusionLeafPath merkleInclusionLeafPathR
     have : ¬ m ≥ n := by omega
     have h' : ¬ s.tree.size < n := by omega
-    simp only [this, h', ↓reduceIte, hst, hr]
+    simp only [this, h', ↓reduceIte, hst, Option.map_some, hr]
   · unfold merkleProve
     rw [nextVarBytes_varBytes data _ hd]
     simp only
